@@ -43,6 +43,7 @@ func (h *hk) Hash() uint {
 	}
 	return uint(h.id)
 }
+func (h *hk) String() string { return strconv.FormatInt(h.id, 10) }
 func (h *hk) Equals(o hmap.LinkedKey) bool {
 	p, ok := o.(*hk)
 	return ok && p != nil && p.id == h.id
@@ -197,6 +198,8 @@ type objAPI[K any] struct {
 	less                    func(a, b K) bool
 	openKeys                func() func() []K
 	openEntries             func() func() []interface{}
+	dm                      *int
+	toString                func() string
 }
 
 type kvGetter[K any] interface {
@@ -263,10 +266,26 @@ func (a *objAPI[K]) inst() *inst {
 					a.sort(func(x, y K) bool { return a.less(y, x) })
 				}
 				return "u"
+			case "TS": // ToString() against the entries' own ToString(), enumerated the HasMoreElements way
+				save := *a.dm
+				*a.dm = 0
+				var parts []string
+				for _, e := range a.entries() {
+					if t, ok := e.(interface{ ToString() string }); ok {
+						parts = append(parts, t.ToString())
+					}
+				}
+				*a.dm = save
+				want := "{" + strings.Join(parts, ", ") + "}"
+				if got := a.toString(); got != want {
+					return strconv.Itoa(a.size()) + "!ToString=" + got + " want " + want
+				}
+				return strconv.Itoa(a.size())
 			}
 			return "?unsupported"
 		},
 		dump: func() dump {
+			*a.dm++ // next way of driving the enumerators
 			d := dump{hasVals: true}
 			for _, e := range a.entries() {
 				g, ok := e.(kvGetter[K])
@@ -322,7 +341,7 @@ func (a *objAPI[K]) inst() *inst {
 	}
 	var pendE func() []interface{}
 	var pendK func() []K
-	it.openEnum = func() { pendE, pendK = a.openEntries(), a.openKeys() }
+	it.openEnum = func() { *a.dm++; pendE, pendK = a.openEntries(), a.openKeys() }
 	it.drainEnum = func() string {
 		if pendE == nil {
 			it.openEnum()
@@ -355,39 +374,70 @@ func boolTok(b bool) string {
 	return "F"
 }
 
-func drainEnum(en hmap.Enumeration, limit int) []interface{} {
+// drive runs an enumerator in one of three ways (`*mode` mod 3):
+//
+//	0  while HasMoreElements() { Next }                                   (with a slack bound)
+//	1  exactly `size` calls of Next with NO HasMoreElements in between     (the Size()-driven loops of ToString / KeyArray / callers)
+//	2  mixed: HasMoreElements called 0–3 times before each Next, `size` elements
+//
+// After 1 and 2, HasMoreElements must be false; whatever is still there is drained so that it shows up as a difference.
+func drive(mode *int, size int, hasMore func() bool, next func()) {
+	m := 0
+	if mode != nil {
+		m = *mode % 3
+	}
+	switch m {
+	case 0:
+		for i := 0; hasMore() && i < size+enumSlack; i++ {
+			next()
+		}
+		return
+	case 1:
+		for i := 0; i < size; i++ {
+			next()
+		}
+	case 2:
+		for i := 0; i < size; i++ {
+			stop := false
+			for k := (i*7 + 3) % 4; k > 0; k-- {
+				if !hasMore() {
+					stop = true
+				}
+			}
+			if stop {
+				return
+			}
+			next()
+		}
+	}
+	for i := 0; hasMore() && i < enumSlack; i++ {
+		next()
+	}
+}
+
+func drainEnum(en hmap.Enumeration, limit int, mode *int) []interface{} {
 	var out []interface{}
-	for i := 0; en.HasMoreElements() && i < limit+enumSlack; i++ {
-		out = append(out, en.NextElement())
-	}
+	drive(mode, limit, en.HasMoreElements, func() { out = append(out, en.NextElement()) })
 	return out
 }
-func drainInt(en hmap.IntEnumer, limit int) []int32 {
+func drainInt(en hmap.IntEnumer, limit int, mode *int) []int32 {
 	var out []int32
-	for i := 0; en.HasMoreElements() && i < limit+enumSlack; i++ {
-		out = append(out, en.NextInt())
-	}
+	drive(mode, limit, en.HasMoreElements, func() { out = append(out, en.NextInt()) })
 	return out
 }
-func drainLong(en hmap.LongEnumer, limit int) []int64 {
+func drainLong(en hmap.LongEnumer, limit int, mode *int) []int64 {
 	var out []int64
-	for i := 0; en.HasMoreElements() && i < limit+enumSlack; i++ {
-		out = append(out, en.NextLong())
-	}
+	drive(mode, limit, en.HasMoreElements, func() { out = append(out, en.NextLong()) })
 	return out
 }
-func drainFloat(en hmap.FloatEnumer, limit int) []float32 {
+func drainFloat(en hmap.FloatEnumer, limit int, mode *int) []float32 {
 	var out []float32
-	for i := 0; en.HasMoreElements() && i < limit+enumSlack; i++ {
-		out = append(out, en.NextFloat())
-	}
+	drive(mode, limit, en.HasMoreElements, func() { out = append(out, en.NextFloat()) })
 	return out
 }
-func drainStr(en hmap.StringEnumer, limit int) []string {
+func drainStr(en hmap.StringEnumer, limit int, mode *int) []string {
 	var out []string
-	for i := 0; en.HasMoreElements() && i < limit+enumSlack; i++ {
-		out = append(out, en.NextString())
-	}
+	drive(mode, limit, en.HasMoreElements, func() { out = append(out, en.NextString()) })
 	return out
 }
 
@@ -412,20 +462,21 @@ func objKeyTok(k hmap.LinkedKey) string {
 func lessObj(a, b hmap.LinkedKey) bool { return a.(*hk).id < b.(*hk).id }
 
 func newLinkedMap(c ctor) *inst {
+	dm := new(int) // how the enumerators of this instance are driven (rotated by the dumps)
 	var m *hmap.LinkedMap
 	if c.def {
 		m = hmap.NewLinkedMapDefault()
 	} else {
 		m = hmap.NewLinkedMap(c.cap, c.lf)
 	}
-	a := &objAPI[hmap.LinkedKey]{size: m.Size, put: m.Put, putLast: m.PutLast, putFirst: m.PutFirst, get: m.Get,
+	a := &objAPI[hmap.LinkedKey]{dm: dm, toString: m.ToString, size: m.Size, put: m.Put, putLast: m.PutLast, putFirst: m.PutFirst, get: m.Get,
 		containsKey: m.ContainsKey, firstKey: m.GetFirstKey, lastKey: m.GetLastKey,
 		firstValue: m.GetFirstValue, lastValue: m.GetLastValue, remove: m.Remove,
 		removeFirst: m.RemoveFirst, removeLast: m.RemoveLast, isEmpty: m.IsEmpty, isFull: m.IsFull, clear: m.Clear,
 		setMax: func(n int) { m.SetMax(n) }, sort: m.Sort,
 		keys: func() []hmap.LinkedKey {
 			var out []hmap.LinkedKey
-			for _, x := range drainEnum(m.Keys(), m.Size()) {
+			for _, x := range drainEnum(m.Keys(), m.Size(), dm) {
 				lk, _ := x.(hmap.LinkedKey)
 				out = append(out, lk)
 			}
@@ -435,7 +486,7 @@ func newLinkedMap(c ctor) *inst {
 			en := m.Keys()
 			return func() []hmap.LinkedKey {
 				var out []hmap.LinkedKey
-				for _, x := range drainEnum(en, m.Size()) {
+				for _, x := range drainEnum(en, m.Size(), dm) {
 					lk, _ := x.(hmap.LinkedKey)
 					out = append(out, lk)
 				}
@@ -443,39 +494,40 @@ func newLinkedMap(c ctor) *inst {
 			}
 		},
 		keyArray: m.KeyArray,
-		values:   func() []interface{} { return drainEnum(m.Values(), m.Size()) },
-		entries:  func() []interface{} { return drainEnum(m.Entries(), m.Size()) },
+		values:   func() []interface{} { return drainEnum(m.Values(), m.Size(), dm) },
+		entries:  func() []interface{} { return drainEnum(m.Entries(), m.Size(), dm) },
 		openEntries: func() func() []interface{} {
 			en := m.Entries()
-			return func() []interface{} { return drainEnum(en, m.Size()) }
+			return func() []interface{} { return drainEnum(en, m.Size(), dm) }
 		},
 		toK: func(k key) hmap.LinkedKey { return &hk{id: k.i, mode: c.hmode} }, kTok: objKeyTok, less: lessObj}
 	return a.inst()
 }
 
 func newIntKeyLinkedMap(c ctor) *inst {
+	dm := new(int) // how the enumerators of this instance are driven (rotated by the dumps)
 	var m *hmap.IntKeyLinkedMap
 	if c.def {
 		m = hmap.NewIntKeyLinkedMapDefault()
 	} else {
 		m = hmap.NewIntKeyLinkedMap(c.cap, c.lf)
 	}
-	a := &objAPI[int32]{size: m.Size, put: m.Put, putLast: m.PutLast, putFirst: m.PutFirst, get: m.Get, getLRU: m.GetLRU,
+	a := &objAPI[int32]{dm: dm, toString: m.ToString, size: m.Size, put: m.Put, putLast: m.PutLast, putFirst: m.PutFirst, get: m.Get, getLRU: m.GetLRU,
 		containsKey: m.ContainsKey, containsValue: m.ContainsValue, firstKey: m.GetFirstKey, lastKey: m.GetLastKey,
 		firstValue: m.GetFirstValue, lastValue: m.GetLastValue, remove: m.Remove,
 		removeFirst: m.RemoveFirst, removeLast: m.RemoveLast, isEmpty: m.IsEmpty, isFull: m.IsFull, clear: m.Clear,
 		setMax: func(n int) { m.SetMax(n) }, sort: m.Sort,
-		keys: func() []int32 { return drainInt(m.Keys(), m.Size()) },
+		keys: func() []int32 { return drainInt(m.Keys(), m.Size(), dm) },
 		openKeys: func() func() []int32 {
 			en := m.Keys()
-			return func() []int32 { return drainInt(en, m.Size()) }
+			return func() []int32 { return drainInt(en, m.Size(), dm) }
 		},
 		keyArray: m.KeyArray,
-		values:   func() []interface{} { return drainEnum(m.Values(), m.Size()) },
-		entries:  func() []interface{} { return drainEnum(m.Entries(), m.Size()) },
+		values:   func() []interface{} { return drainEnum(m.Values(), m.Size(), dm) },
+		entries:  func() []interface{} { return drainEnum(m.Entries(), m.Size(), dm) },
 		openEntries: func() func() []interface{} {
 			en := m.Entries()
-			return func() []interface{} { return drainEnum(en, m.Size()) }
+			return func() []interface{} { return drainEnum(en, m.Size(), dm) }
 		},
 		toK: toI32, kTok: i32Tok, less: lessI32}
 	it := a.inst()
@@ -486,7 +538,7 @@ func newIntKeyLinkedMap(c ctor) *inst {
 		note := ""
 		if keptSet != nil {
 			var toks []string
-			for _, k := range drainInt(keptSet.Keys(), keptSet.Size()) {
+			for _, k := range drainInt(keptSet.Keys(), keptSet.Size(), nil) {
 				toks = append(toks, i32Tok(k))
 			}
 			if joinToks(toks) != keptKeys {
@@ -496,7 +548,7 @@ func newIntKeyLinkedMap(c ctor) *inst {
 		}
 		set := m.GetKeySet()
 		var toks []string
-		for _, k := range drainInt(set.Keys(), set.Size()) {
+		for _, k := range drainInt(set.Keys(), set.Size(), nil) {
 			toks = append(toks, i32Tok(k))
 		}
 		l := m.ToKeySet() // PushFront of every key: back → front is the map's order
@@ -525,51 +577,53 @@ func newIntKeyLinkedMap(c ctor) *inst {
 }
 
 func newLongKeyLinkedMap(c ctor) *inst {
+	dm := new(int) // how the enumerators of this instance are driven (rotated by the dumps)
 	var m *hmap.LongKeyLinkedMap
 	if c.def {
 		m = hmap.NewLongKeyLinkedMapDefault()
 	} else {
 		m = hmap.NewLongKeyLinkedMap(c.cap, c.lf)
 	}
-	a := &objAPI[int64]{size: m.Size, put: m.Put, putLast: m.PutLast, putFirst: m.PutFirst, get: m.Get,
+	a := &objAPI[int64]{dm: dm, toString: m.ToString, size: m.Size, put: m.Put, putLast: m.PutLast, putFirst: m.PutFirst, get: m.Get,
 		containsKey: m.ContainsKey, firstKey: m.GetFirstKey, lastKey: m.GetLastKey,
 		firstValue: m.GetFirstValue, lastValue: m.GetLastValue, remove: m.Remove,
 		removeFirst: m.RemoveFirst, removeLast: m.RemoveLast, isEmpty: m.IsEmpty, isFull: m.IsFull, clear: m.Clear,
 		setMax: func(n int) { m.SetMax(n) }, sort: m.Sort,
-		keys: func() []int64 { return drainLong(m.Keys(), m.Size()) },
+		keys: func() []int64 { return drainLong(m.Keys(), m.Size(), dm) },
 		openKeys: func() func() []int64 {
 			en := m.Keys()
-			return func() []int64 { return drainLong(en, m.Size()) }
+			return func() []int64 { return drainLong(en, m.Size(), dm) }
 		},
 		keyArray: m.KeyArray,
-		values:   func() []interface{} { return drainEnum(m.Values(), m.Size()) },
-		entries:  func() []interface{} { return drainEnum(m.Entries(), m.Size()) },
+		values:   func() []interface{} { return drainEnum(m.Values(), m.Size(), dm) },
+		entries:  func() []interface{} { return drainEnum(m.Entries(), m.Size(), dm) },
 		openEntries: func() func() []interface{} {
 			en := m.Entries()
-			return func() []interface{} { return drainEnum(en, m.Size()) }
+			return func() []interface{} { return drainEnum(en, m.Size(), dm) }
 		},
 		toK: toI64, kTok: i64Tok, less: lessI64}
 	return a.inst()
 }
 
 func newStringKeyLinkedMap(c ctor) *inst {
+	dm := new(int) // how the enumerators of this instance are driven (rotated by the dumps)
 	m := hmap.NewStringKeyLinkedMap()
-	a := &objAPI[string]{size: m.Size, put: m.Put, putLast: m.PutLast, putFirst: m.PutFirst, get: m.Get,
+	a := &objAPI[string]{dm: dm, toString: m.ToString, size: m.Size, put: m.Put, putLast: m.PutLast, putFirst: m.PutFirst, get: m.Get,
 		containsKey: m.ContainsKey, firstKey: m.GetFirstKey, lastKey: m.GetLastKey,
 		firstValue: m.GetFirstValue, lastValue: m.GetLastValue, remove: m.Remove,
 		removeFirst: m.RemoveFirst, removeLast: m.RemoveLast, isEmpty: m.IsEmpty, isFull: m.IsFull, clear: m.Clear,
 		setMax: func(n int) { m.SetMax(n) }, sort: m.Sort,
-		keys: func() []string { return drainStr(m.Keys(), m.Size()) },
+		keys: func() []string { return drainStr(m.Keys(), m.Size(), dm) },
 		openKeys: func() func() []string {
 			en := m.Keys()
-			return func() []string { return drainStr(en, m.Size()) }
+			return func() []string { return drainStr(en, m.Size(), dm) }
 		},
 		keyArray: m.KeyArray,
-		values:   func() []interface{} { return drainEnum(m.Values(), m.Size()) },
-		entries:  func() []interface{} { return drainEnum(m.Entries(), m.Size()) },
+		values:   func() []interface{} { return drainEnum(m.Values(), m.Size(), dm) },
+		entries:  func() []interface{} { return drainEnum(m.Entries(), m.Size(), dm) },
 		openEntries: func() func() []interface{} {
 			en := m.Entries()
-			return func() []interface{} { return drainEnum(en, m.Size()) }
+			return func() []interface{} { return drainEnum(en, m.Size(), dm) }
 		},
 		toK: toStr, kTok: strTok, less: lessStr}
 	return a.inst()
@@ -602,6 +656,8 @@ type numAPI[K any, W any] struct {
 	wTok                              func(W) string
 	openKeys                          func() func() []K
 	openEntries                       func() func() []interface{}
+	dm                                *int
+	toString                          func() string
 }
 
 type kwGetter[K any, W any] interface {
@@ -676,10 +732,26 @@ func (a *numAPI[K, W]) inst() *inst {
 					a.sort(func(x, y K) bool { return a.less(y, x) })
 				}
 				return "u"
+			case "TS": // ToString() against the entries' own ToString(), enumerated the HasMoreElements way
+				save := *a.dm
+				*a.dm = 0
+				var parts []string
+				for _, e := range a.entries() {
+					if t, ok := e.(interface{ ToString() string }); ok {
+						parts = append(parts, t.ToString())
+					}
+				}
+				*a.dm = save
+				want := "{" + strings.Join(parts, ", ") + "}"
+				if got := a.toString(); got != want {
+					return strconv.Itoa(a.size()) + "!ToString=" + got + " want " + want
+				}
+				return strconv.Itoa(a.size())
 			}
 			return "?unsupported"
 		},
 		dump: func() dump {
+			*a.dm++ // next way of driving the enumerators
 			d := dump{hasVals: true}
 			for _, e := range a.entries() {
 				g, ok := e.(kwGetter[K, W])
@@ -739,7 +811,7 @@ func (a *numAPI[K, W]) inst() *inst {
 	}
 	var pendE func() []interface{}
 	var pendK func() []K
-	it.openEnum = func() { pendE, pendK = a.openEntries(), a.openKeys() }
+	it.openEnum = func() { *a.dm++; pendE, pendK = a.openEntries(), a.openKeys() }
 	it.drainEnum = func() string {
 		if pendE == nil {
 			it.openEnum()
@@ -770,22 +842,23 @@ func w64(v int64) int64    { return v }
 func wf32(v int64) float32 { return math.Float32frombits(uint32(v)) } // the op carries the bit pattern
 
 func newIntIntLinkedMap(c ctor) *inst {
+	dm := new(int) // how the enumerators of this instance are driven (rotated by the dumps)
 	m := hmap.NewIntIntLinkedMap()
-	a := &numAPI[int32, int32]{size: m.Size, put: m.Put, putLast: m.PutLast, putFirst: m.PutFirst,
+	a := &numAPI[int32, int32]{dm: dm, toString: m.ToString, size: m.Size, put: m.Put, putLast: m.PutLast, putFirst: m.PutFirst,
 		add: m.Add, addLast: m.AddLast, addFirst: m.AddFirst, addNoOver: m.AddNoOver, get: m.Get,
 		containsKey: m.ContainsKey, containsValue: m.ContainsValue, firstKey: m.GetFirstKey, lastKey: m.GetLastKey,
 		firstValue: m.GetFirstValue, lastValue: m.GetLastValue, remove: m.Remove, removeFirst: m.RemoveFirst, removeLast: m.RemoveLast,
 		isEmpty: m.IsEmpty, isFull: m.IsFull, clear: m.Clear, setMax: func(n int) { m.SetMax(n) }, sort: m.Sort,
-		keys: func() []int32 { return drainInt(m.Keys(), m.Size()) }, keyArray: m.KeyArray,
+		keys: func() []int32 { return drainInt(m.Keys(), m.Size(), dm) }, keyArray: m.KeyArray,
 		openKeys: func() func() []int32 {
 			en := m.Keys()
-			return func() []int32 { return drainInt(en, m.Size()) }
+			return func() []int32 { return drainInt(en, m.Size(), dm) }
 		},
-		values:  func() ([]int32, string) { return drainInt(m.Values(), m.Size()), "" },
-		entries: func() []interface{} { return drainEnum(m.Entries(), m.Size()) },
+		values:  func() ([]int32, string) { return drainInt(m.Values(), m.Size(), dm), "" },
+		entries: func() []interface{} { return drainEnum(m.Entries(), m.Size(), dm) },
 		openEntries: func() func() []interface{} {
 			en := m.Entries()
-			return func() []interface{} { return drainEnum(en, m.Size()) }
+			return func() []interface{} { return drainEnum(en, m.Size(), dm) }
 		},
 		toK: toI32, kTok: i32Tok, less: lessI32, toW: w32, wTok: i32Tok}
 	it := a.inst()
@@ -799,27 +872,28 @@ func newIntIntLinkedMap(c ctor) *inst {
 }
 
 func newLongLongLinkedMap(c ctor) *inst {
+	dm := new(int) // how the enumerators of this instance are driven (rotated by the dumps)
 	var m *hmap.LongLongLinkedMap
 	if c.def {
 		m = hmap.NewLongLongLinkedMapDefault()
 	} else {
 		m = hmap.NewLongLongLinkedMap(c.cap, c.lf)
 	}
-	a := &numAPI[int64, int64]{size: m.Size, put: m.Put, putLast: m.PutLast, putFirst: m.PutFirst,
+	a := &numAPI[int64, int64]{dm: dm, toString: m.ToString, size: m.Size, put: m.Put, putLast: m.PutLast, putFirst: m.PutFirst,
 		add: m.Add, addLast: m.AddLast, addFirst: m.AddFirst, get: m.Get,
 		containsKey: m.ContainsKey, containsValue: m.ContainsValue, firstKey: m.GetFirstKey, lastKey: m.GetLastKey,
 		firstValue: m.GetFirstValue, lastValue: m.GetLastValue, remove: m.Remove, removeFirst: m.RemoveFirst, removeLast: m.RemoveLast,
 		isEmpty: m.IsEmpty, isFull: m.IsFull, clear: m.Clear, setMax: func(n int) { m.SetMax(n) }, sort: m.Sort,
-		keys: func() []int64 { return drainLong(m.Keys(), m.Size()) }, keyArray: m.KeyArray,
+		keys: func() []int64 { return drainLong(m.Keys(), m.Size(), dm) }, keyArray: m.KeyArray,
 		openKeys: func() func() []int64 {
 			en := m.Keys()
-			return func() []int64 { return drainLong(en, m.Size()) }
+			return func() []int64 { return drainLong(en, m.Size(), dm) }
 		},
-		values:  func() ([]int64, string) { return drainLong(m.Values(), m.Size()), "" },
-		entries: func() []interface{} { return drainEnum(m.Entries(), m.Size()) },
+		values:  func() ([]int64, string) { return drainLong(m.Values(), m.Size(), dm), "" },
+		entries: func() []interface{} { return drainEnum(m.Entries(), m.Size(), dm) },
 		openEntries: func() func() []interface{} {
 			en := m.Entries()
-			return func() []interface{} { return drainEnum(en, m.Size()) }
+			return func() []interface{} { return drainEnum(en, m.Size(), dm) }
 		},
 		toK: toI64, kTok: i64Tok, less: lessI64, toW: w64, wTok: i64Tok}
 	it := a.inst()
@@ -833,68 +907,71 @@ func newLongLongLinkedMap(c ctor) *inst {
 }
 
 func newIntFloatLinkedMap(c ctor) *inst {
+	dm := new(int) // how the enumerators of this instance are driven (rotated by the dumps)
 	m := hmap.NewIntFloatLinkedMap()
-	a := &numAPI[int32, float32]{size: m.Size, put: m.Put, putLast: m.PutLast, putFirst: m.PutFirst,
+	a := &numAPI[int32, float32]{dm: dm, toString: m.ToString, size: m.Size, put: m.Put, putLast: m.PutLast, putFirst: m.PutFirst,
 		add: m.Add, addLast: m.AddLast, addFirst: m.AddFirst, get: m.Get,
 		containsKey: m.ContainsKey, containsValue: m.ContainsValue, firstKey: m.GetFirstKey, lastKey: m.GetLastKey,
 		firstValue: m.GetFirstValue, lastValue: m.GetLastValue, remove: m.Remove, removeFirst: m.RemoveFirst, removeLast: m.RemoveLast,
 		isEmpty: m.IsEmpty, isFull: m.IsFull, clear: m.Clear, setMax: func(n int) { m.SetMax(n) }, sort: m.Sort,
-		keys: func() []int32 { return drainInt(m.Keys(), m.Size()) }, keyArray: m.KeyArray,
+		keys: func() []int32 { return drainInt(m.Keys(), m.Size(), dm) }, keyArray: m.KeyArray,
 		openKeys: func() func() []int32 {
 			en := m.Keys()
-			return func() []int32 { return drainInt(en, m.Size()) }
+			return func() []int32 { return drainInt(en, m.Size(), dm) }
 		},
-		values:  func() ([]float32, string) { return drainFloat(m.Values(), m.Size()), "" },
-		entries: func() []interface{} { return drainEnum(m.Entries(), m.Size()) },
+		values:  func() ([]float32, string) { return drainFloat(m.Values(), m.Size(), dm), "" },
+		entries: func() []interface{} { return drainEnum(m.Entries(), m.Size(), dm) },
 		openEntries: func() func() []interface{} {
 			en := m.Entries()
-			return func() []interface{} { return drainEnum(en, m.Size()) }
+			return func() []interface{} { return drainEnum(en, m.Size(), dm) }
 		},
 		toK: toI32, kTok: i32Tok, less: lessI32, toW: wf32, wTok: f32Tok}
 	return a.inst()
 }
 
 func newLongFloatLinkedMap(c ctor) *inst {
+	dm := new(int) // how the enumerators of this instance are driven (rotated by the dumps)
 	m := hmap.NewLongFloatLinkedMap()
-	a := &numAPI[int64, float32]{size: m.Size, put: m.Put, putLast: m.PutLast, putFirst: m.PutFirst,
+	a := &numAPI[int64, float32]{dm: dm, toString: m.ToString, size: m.Size, put: m.Put, putLast: m.PutLast, putFirst: m.PutFirst,
 		add: m.Add, addLast: m.AddLast, addFirst: m.AddFirst, get: m.Get,
 		containsKey: m.ContainsKey, containsValue: m.ContainsValue, firstKey: m.GetFirstKey, lastKey: m.GetLastKey,
 		firstValue: m.GetFirstValue, lastValue: m.GetLastValue, remove: m.Remove, removeFirst: m.RemoveFirst, removeLast: m.RemoveLast,
 		isEmpty: m.IsEmpty, isFull: m.IsFull, clear: m.Clear, setMax: func(n int) { m.SetMax(n) }, sort: m.Sort,
-		keys: func() []int64 { return drainLong(m.Keys(), m.Size()) }, keyArray: m.KeyArray,
+		keys: func() []int64 { return drainLong(m.Keys(), m.Size(), dm) }, keyArray: m.KeyArray,
 		openKeys: func() func() []int64 {
 			en := m.Keys()
-			return func() []int64 { return drainLong(en, m.Size()) }
+			return func() []int64 { return drainLong(en, m.Size(), dm) }
 		},
-		values:  func() ([]float32, string) { return drainFloat(m.Values(), m.Size()), "" },
-		entries: func() []interface{} { return drainEnum(m.Entries(), m.Size()) },
+		values:  func() ([]float32, string) { return drainFloat(m.Values(), m.Size(), dm), "" },
+		entries: func() []interface{} { return drainEnum(m.Entries(), m.Size(), dm) },
 		openEntries: func() func() []interface{} {
 			en := m.Entries()
-			return func() []interface{} { return drainEnum(en, m.Size()) }
+			return func() []interface{} { return drainEnum(en, m.Size(), dm) }
 		},
 		toK: toI64, kTok: i64Tok, less: lessI64, toW: wf32, wTok: f32Tok}
 	return a.inst()
 }
 
 func newStringIntLinkedMap(c ctor) *inst {
+	dm := new(int) // how the enumerators of this instance are driven (rotated by the dumps)
 	m := hmap.NewStringIntLinkedMap()
 	asV := func(x interface{}) int32 { return x.(int32) }
-	a := &numAPI[string, int32]{size: m.Size, put: m.Put, putLast: m.PutLast, putFirst: m.PutFirst,
+	a := &numAPI[string, int32]{dm: dm, toString: m.ToString, size: m.Size, put: m.Put, putLast: m.PutLast, putFirst: m.PutFirst,
 		add: m.Add, addLast: m.AddLast, addFirst: m.AddFirst, get: m.Get,
 		containsKey: m.ContainsKey, containsValue: m.ContainsValue, firstKey: m.GetFirstKey, lastKey: m.GetLastKey,
 		firstValue: func() int32 { return asV(m.GetFirstValue()) }, lastValue: func() int32 { return asV(m.GetLastValue()) },
 		remove:      func(k string) int32 { return asV(m.Remove(k)) },
 		removeFirst: func() int32 { return asV(m.RemoveFirst()) }, removeLast: func() int32 { return asV(m.RemoveLast()) },
 		isEmpty: m.IsEmpty, isFull: m.IsFull, clear: m.Clear, setMax: func(n int) { m.SetMax(n) }, sort: m.Sort,
-		keys: func() []string { return drainStr(m.Keys(), m.Size()) }, keyArray: m.KeyArray,
+		keys: func() []string { return drainStr(m.Keys(), m.Size(), dm) }, keyArray: m.KeyArray,
 		openKeys: func() func() []string {
 			en := m.Keys()
-			return func() []string { return drainStr(en, m.Size()) }
+			return func() []string { return drainStr(en, m.Size(), dm) }
 		},
 		values: func() ([]int32, string) {
 			var out []int32
 			note := ""
-			for _, x := range drainEnum(m.Values(), m.Size()) {
+			for _, x := range drainEnum(m.Values(), m.Size(), dm) {
 				if v, ok := x.(int32); ok {
 					out = append(out, v)
 				} else {
@@ -903,34 +980,35 @@ func newStringIntLinkedMap(c ctor) *inst {
 			}
 			return out, note
 		},
-		entries: func() []interface{} { return drainEnum(m.Entries(), m.Size()) },
+		entries: func() []interface{} { return drainEnum(m.Entries(), m.Size(), dm) },
 		openEntries: func() func() []interface{} {
 			en := m.Entries()
-			return func() []interface{} { return drainEnum(en, m.Size()) }
+			return func() []interface{} { return drainEnum(en, m.Size(), dm) }
 		},
 		toK: toStr, kTok: strTok, less: lessStr, toW: w32, wTok: i32Tok}
 	return a.inst()
 }
 
 func newStringLongLinkedMap(c ctor) *inst {
+	dm := new(int) // how the enumerators of this instance are driven (rotated by the dumps)
 	m := hmap.NewStringLongLinkedMap()
 	asV := func(x interface{}) int64 { return x.(int64) }
-	a := &numAPI[string, int64]{size: m.Size, put: m.Put, putLast: m.PutLast, putFirst: m.PutFirst,
+	a := &numAPI[string, int64]{dm: dm, toString: m.ToString, size: m.Size, put: m.Put, putLast: m.PutLast, putFirst: m.PutFirst,
 		add: m.Add, addLast: m.AddLast, addFirst: m.AddFirst, get: m.Get,
 		containsKey: m.ContainsKey, containsValue: m.ContainsValue, firstKey: m.GetFirstKey, lastKey: m.GetLastKey,
 		firstValue: func() int64 { return asV(m.GetFirstValue()) }, lastValue: func() int64 { return asV(m.GetLastValue()) },
 		remove:      func(k string) int64 { return asV(m.Remove(k)) },
 		removeFirst: func() int64 { return asV(m.RemoveFirst()) }, removeLast: func() int64 { return asV(m.RemoveLast()) },
 		isEmpty: m.IsEmpty, isFull: m.IsFull, clear: m.Clear, setMax: func(n int) { m.SetMax(n) }, sort: m.Sort,
-		keys: func() []string { return drainStr(m.Keys(), m.Size()) }, keyArray: m.KeyArray,
+		keys: func() []string { return drainStr(m.Keys(), m.Size(), dm) }, keyArray: m.KeyArray,
 		openKeys: func() func() []string {
 			en := m.Keys()
-			return func() []string { return drainStr(en, m.Size()) }
+			return func() []string { return drainStr(en, m.Size(), dm) }
 		},
 		values: func() ([]int64, string) {
 			var out []int64
 			note := ""
-			for _, x := range drainEnum(m.Values(), m.Size()) {
+			for _, x := range drainEnum(m.Values(), m.Size(), dm) {
 				if v, ok := x.(int64); ok {
 					out = append(out, v)
 				} else {
@@ -939,10 +1017,10 @@ func newStringLongLinkedMap(c ctor) *inst {
 			}
 			return out, note
 		},
-		entries: func() []interface{} { return drainEnum(m.Entries(), m.Size()) },
+		entries: func() []interface{} { return drainEnum(m.Entries(), m.Size(), dm) },
 		openEntries: func() func() []interface{} {
 			en := m.Entries()
-			return func() []interface{} { return drainEnum(en, m.Size()) }
+			return func() []interface{} { return drainEnum(en, m.Size(), dm) }
 		},
 		toK: toStr, kTok: strTok, less: lessStr, toW: w64, wTok: i64Tok}
 	return a.inst()
@@ -967,6 +1045,9 @@ type setAPI[K any] struct {
 	less                    func(a, b K) bool
 	retTok                  func(interface{}) string // the key an operation returned
 	openKeys                func() func() []K
+	dm                      *int
+	toString                func() string
+	kStr                    func(K) string // how ToString prints a key
 }
 
 // setRet renders the result of put/remove on a set: the key itself when the element was present,
@@ -1028,10 +1109,24 @@ func (a *setAPI[K]) inst() *inst {
 					a.sort(func(x, y K) bool { return a.less(y, x) })
 				}
 				return "u"
+			case "TS":
+				save := *a.dm
+				*a.dm = 0
+				var parts []string
+				for _, k := range a.keys() {
+					parts = append(parts, a.kStr(k))
+				}
+				*a.dm = save
+				want := "{" + strings.Join(parts, ", ") + "}"
+				if got := a.toString(); got != want {
+					return strconv.Itoa(a.size()) + "!ToString=" + got + " want " + want
+				}
+				return strconv.Itoa(a.size())
 			}
 			return "?unsupported"
 		},
 		dump: func() dump {
+			*a.dm++
 			d := dump{}
 			for _, k := range a.keys() {
 				d.keys = append(d.keys, a.kTok(k))
@@ -1076,7 +1171,7 @@ func (a *setAPI[K]) inst() *inst {
 		return joinToks(toks) + note
 	}
 	var pendK func() []K
-	it.openEnum = func() { pendK = a.openKeys() }
+	it.openEnum = func() { *a.dm++; pendK = a.openKeys() }
 	it.drainEnum = func() string {
 		if pendK == nil {
 			it.openEnum()
@@ -1092,13 +1187,14 @@ func (a *setAPI[K]) inst() *inst {
 }
 
 func newLinkedSet(c ctor) *inst {
+	dm := new(int) // how the enumerators of this instance are driven (rotated by the dumps)
 	m := hmap.NewLinkedSet()
-	a := &setAPI[hmap.LinkedKey]{size: m.Size, put: m.Put, putLast: m.PutLast, putFirst: m.PutFirst, contains: m.Contains,
+	a := &setAPI[hmap.LinkedKey]{dm: dm, toString: m.ToString, size: m.Size, put: m.Put, putLast: m.PutLast, putFirst: m.PutFirst, contains: m.Contains,
 		first: m.GetFirst, last: m.GetLast, remove: m.Remove, removeFirst: m.RemoveFirst, removeLast: m.RemoveLast,
 		isEmpty: m.IsEmpty, isFull: m.IsFull, clear: m.Clear, setMax: func(n int) { m.SetMax(n) }, sort: m.Sort,
 		keys: func() []hmap.LinkedKey {
 			var out []hmap.LinkedKey
-			for _, x := range drainEnum(m.Keys(), m.Size()) {
+			for _, x := range drainEnum(m.Keys(), m.Size(), dm) {
 				lk, _ := x.(hmap.LinkedKey)
 				out = append(out, lk)
 			}
@@ -1108,7 +1204,7 @@ func newLinkedSet(c ctor) *inst {
 			en := m.Keys()
 			return func() []hmap.LinkedKey {
 				var out []hmap.LinkedKey
-				for _, x := range drainEnum(en, m.Size()) {
+				for _, x := range drainEnum(en, m.Size(), dm) {
 					lk, _ := x.(hmap.LinkedKey)
 					out = append(out, lk)
 				}
@@ -1117,6 +1213,7 @@ func newLinkedSet(c ctor) *inst {
 		},
 		keyArray: m.KeyArray,
 		toK:      func(k key) hmap.LinkedKey { return &hk{id: k.i, mode: c.hmode} }, kTok: objKeyTok, less: lessObj,
+		kStr: func(k hmap.LinkedKey) string { return fmt.Sprintf("%v", k) },
 		retTok: func(x interface{}) string {
 			lk, _ := x.(hmap.LinkedKey)
 			return objKeyTok(lk)
@@ -1125,17 +1222,19 @@ func newLinkedSet(c ctor) *inst {
 }
 
 func newIntLinkedSet(c ctor) *inst {
+	dm := new(int) // how the enumerators of this instance are driven (rotated by the dumps)
 	m := hmap.NewIntLinkedSet()
-	a := &setAPI[int32]{size: m.Size, put: m.Put, putLast: m.PutLast, putFirst: m.PutFirst, contains: m.Contains,
+	a := &setAPI[int32]{dm: dm, toString: m.ToString, size: m.Size, put: m.Put, putLast: m.PutLast, putFirst: m.PutFirst, contains: m.Contains,
 		first: m.GetFirst, last: m.GetLast, remove: m.Remove, removeFirst: m.RemoveFirst, removeLast: m.RemoveLast,
 		isEmpty: m.IsEmpty, isFull: m.IsFull, clear: m.Clear, setMax: func(n int) { m.SetMax(n) }, sort: m.Sort,
-		keys: func() []int32 { return drainInt(m.Keys(), m.Size()) },
+		keys: func() []int32 { return drainInt(m.Keys(), m.Size(), dm) },
 		openKeys: func() func() []int32 {
 			en := m.Keys()
-			return func() []int32 { return drainInt(en, m.Size()) }
+			return func() []int32 { return drainInt(en, m.Size(), dm) }
 		},
 		keyArray: m.KeyArray,
 		toK:      toI32, kTok: i32Tok, less: lessI32,
+		kStr: func(k int32) string { return fmt.Sprintf("%d", k) },
 		retTok: func(x interface{}) string {
 			if v, ok := x.(int32); ok {
 				return i32Tok(v)
@@ -1146,17 +1245,19 @@ func newIntLinkedSet(c ctor) *inst {
 }
 
 func newStringLinkedSet(c ctor) *inst {
+	dm := new(int) // how the enumerators of this instance are driven (rotated by the dumps)
 	m := hmap.NewStringLinkedSet()
-	a := &setAPI[string]{size: m.Size, put: m.Put, putLast: m.PutLast, putFirst: m.PutFirst, contains: m.Contains,
+	a := &setAPI[string]{dm: dm, toString: m.ToString, size: m.Size, put: m.Put, putLast: m.PutLast, putFirst: m.PutFirst, contains: m.Contains,
 		first: m.GetFirst, last: m.GetLast, remove: m.Remove, removeFirst: m.RemoveFirst, removeLast: m.RemoveLast,
 		isEmpty: m.IsEmpty, isFull: m.IsFull, clear: m.Clear, setMax: func(n int) { m.SetMax(n) }, sort: m.Sort,
-		keys: func() []string { return drainStr(m.Keys(), m.Size()) },
+		keys: func() []string { return drainStr(m.Keys(), m.Size(), dm) },
 		openKeys: func() func() []string {
 			en := m.Keys()
-			return func() []string { return drainStr(en, m.Size()) }
+			return func() []string { return drainStr(en, m.Size(), dm) }
 		},
 		keyArray: m.GetArray,
 		toK:      toStr, kTok: strTok, less: lessStr,
+		kStr: func(k string) string { return k },
 		retTok: func(x interface{}) string {
 			if v, ok := x.(string); ok {
 				return strTok(v)
